@@ -148,6 +148,13 @@ def execOp (chk : Bool) (tok : List String) : String :=
       renderRes (fun o => match o with
         | none => "Exhausted"
         | some (f, g) => renderInts f ++ " " ++ renderInts g) (KeygenSkel.firstCandidate chk (parseNat n) sd)
+  | ["field_norm", f] => let f := parseInts f; renderInts (RingZ.fieldNorm f.length f)
+  | ["lift_poly", f] => renderInts (RingZ.lift (parseInts f))
+  | ["galois_adjoint", f] => renderInts (RingZ.adjoint (parseInts f))
+  | ["lift_step", f, g, cf, cg] =>
+      let f := parseInts f
+      let r := RingZ.liftStep f.length f (parseInts g) (parseInts cf) (parseInts cg)
+      renderInts r.1 ++ " " ++ renderInts r.2
   | ["first_drawn", n, seed] =>
       -- what the real `gen_b0(seed)` draws first must be what the model derives from the unchanged seed
       let sd := parseHex seed
